@@ -171,7 +171,7 @@ def parse_template(path):
                 rest = m.group(2)
                 # path ends at first opt token; opts are known keywords
                 toks = split_opts(rest)
-                optkw = ("subst(", "optsubst(", "forexpr(", "closurepat(", "fragment(", "addgenerics(", "sigsubst(", "bound(", "attr(", "ret(", "mono(", "nogenerics", "nowhere", "keepvis", "keepattrs", "desugar(",
+                optkw = ("subst(", "optsubst(", "forexpr(", "closurepat(", "fragment(", "tailfrom(", "addgenerics(", "sigsubst(", "bound(", "attr(", "ret(", "mono(", "nogenerics", "nowhere", "keepvis", "keepattrs", "desugar(",
                          "trusted", "rename(", "nobody", "novis")
                 ptoks, otoks = [], []
                 for t in toks:
@@ -421,6 +421,19 @@ def assemble_item(d, info, src, srcfile_label, log):
                     raise Undecided(f"{d.path}: fragment({k_}): function has {len(st)} statements -- anchor lost")
                 add(st[k_][0], it["body_close"], rep_.strip() + "\n", "FRAGMENT")
         for o in d.opts:
+            if o.startswith("tailfrom("):
+                # FRAGMENT, second form (TAIL): the function is verified from the first top-level statement whose text
+                # starts with the given snippet; the statements before it are replaced by the given text, which reads the
+                # values they compute from a prelude model (so the contract is about what the function does *after* that
+                # point, for any values of those locals). The dropped statements are logged.
+                snip_, rep_ = o[9:-1].split("=>", 1)
+                snip_ = snip_.strip().encode()
+                st = it.get("stmts", [])
+                hit = [x for x in st if re.match(ws_tolerant(snip_.decode()), src[x[0]:x[1]])]
+                if len(hit) != 1 or hit[0] == st[0]:
+                    raise Undecided(f"{d.path}: tailfrom: {len(hit)} top-level statements start with `{snip_.decode()}` -- anchor lost")
+                add(st[0][0], hit[0][0], rep_.strip() + "\n", "FRAGMENT")
+        for o in d.opts:
             if o.startswith("addgenerics("):
                 # generic parameters of the dropped impl header are moved onto the function (IMPL_HEADER rule)
                 if it.get("gparams") and it["gparams"]["params"] and not d.opt("nogenerics"):
@@ -652,7 +665,7 @@ def assemble_item(d, info, src, srcfile_label, log):
         raise Undecided(f"{d.path}: sections on a non-fn item")
 
     # an edit that lies inside a larger replaced span is subsumed by it (e.g. MONO inside a dropped where clause)
-    big = [(e[0], e[1], e[4]) for e in edits if e[1] > e[0] and e[3] in ("MONO", "DROP_ATTR", "NOBODY") and not e[2]]
+    big = [(e[0], e[1], e[4]) for e in edits if e[1] > e[0] and ((e[3] in ("MONO", "DROP_ATTR", "NOBODY") and not e[2]) or e[3] == "FRAGMENT")]
     def subsumed(e):
         for a, b, o in big:
             if o != e[4] and a <= e[0] and e[1] <= b and e[0] < b and not (e[0] == e[1] == a) and (e[1] - e[0]) < (b - a):
